@@ -177,10 +177,11 @@ class Backfilling(TMGRSchedulingComponent):
                     continue
 
                 if uid not in info['tasks']:
-                    # this contradicts the task's assignment
+                    # this task was not assigned by this scheduler (it was
+                    # bound to the pilot by the application) and thus was never
+                    # counted against the pilot's usage
                     self._log.debug('upd task  %s not in tasks', uid)
-                    self._log.error('bf: task %s on %s inconsistent', uid, pid)
-                    raise RuntimeError('inconsistent scheduler state')
+                    continue
 
                 # this task is now considered done
                 info['done'].append(uid)
